@@ -96,6 +96,68 @@ fn main() {
         let ms: u64 = it.next().unwrap().parse().unwrap();
         report(eng.as_mut().unwrap().on_tick(base + Duration::from_millis(ms)));
       }
+      "waitgroup_race" => {
+        // schedule from the solver: waiter checks the count (1), worker calls done() (0 + notify_waiters),
+        // only then the waiter creates its Notified future.
+        use rzmq::verif_facade::{set_sched_hook, VWaitGroup};
+        let rt = tokio::runtime::Builder::new_current_thread().enable_all().build().unwrap();
+        let wg = VWaitGroup::new();
+        wg.add(1);
+        let wg2 = wg.clone();
+        let fired = std::sync::Arc::new(std::sync::atomic::AtomicBool::new(false));
+        let fired2 = fired.clone();
+        set_sched_hook(Some(Box::new(move |point: &str| {
+          if point == "WaitGroup::wait:after-check" && !fired2.swap(true, std::sync::atomic::Ordering::SeqCst) {
+            wg2.done();
+          }
+        })));
+        let r = rt.block_on(async { tokio::time::timeout(Duration::from_millis(500), wg.wait()).await });
+        set_sched_hook(None);
+        match r {
+          Ok(()) => println!("waitgroup wait returned count={}", wg.get_count()),
+          Err(_) => println!("waitgroup wait BLOCKED count={} hook_fired={}", wg.get_count(), fired.load(std::sync::atomic::Ordering::SeqCst)),
+        }
+      }
+      "lb_wait_race" => {
+        // schedule from the solver: the sender sees no peer, a peer is added (+notify_waiters), only then
+        // the sender creates its Notified future.
+        use rzmq::verif_facade::{set_sched_hook, VLoadBalancer};
+        let rt = tokio::runtime::Builder::new_current_thread().enable_all().build().unwrap();
+        let lb = std::sync::Arc::new(VLoadBalancer::new());
+        let lb2 = lb.clone();
+        let fired = std::sync::Arc::new(std::sync::atomic::AtomicBool::new(false));
+        let fired2 = fired.clone();
+        set_sched_hook(Some(Box::new(move |point: &str| {
+          if point == "LoadBalancer::wait_for_connection:after-check" && !fired2.swap(true, std::sync::atomic::Ordering::SeqCst) {
+            lb2.add_connection("tcp://peer");
+          }
+        })));
+        let r = rt.block_on(async { tokio::time::timeout(Duration::from_millis(500), lb.wait_for_connection()).await });
+        set_sched_hook(None);
+        match r {
+          Ok(res) => println!("lb wait returned ok={} peers={}", res.is_ok(), lb.connection_count()),
+          Err(_) => println!("lb wait BLOCKED peers={} hook_fired={}", lb.connection_count(), fired.load(std::sync::atomic::Ordering::SeqCst)),
+        }
+      }
+      "inproc" => {
+        use rzmq::SocketType;
+        fn st(s: &str) -> SocketType {
+          match s {
+            "Pub" => SocketType::Pub,
+            "Sub" => SocketType::Sub,
+            "Req" => SocketType::Req,
+            "Rep" => SocketType::Rep,
+            "Dealer" => SocketType::Dealer,
+            "Router" => SocketType::Router,
+            "Push" => SocketType::Push,
+            "Pull" => SocketType::Pull,
+            _ => panic!("socket type {}", s),
+          }
+        }
+        let a = st(it.next().unwrap());
+        let b = st(it.next().unwrap());
+        println!("inproc {}", if rzmq::verif_facade::inproc_socket_types_compatible(a, b) { "ok" } else { "refused" });
+      }
       "phase" => println!("phase {:?} partial={} waiting_pong={}", eng.as_ref().unwrap().phase, eng.as_ref().unwrap().verif_partial_batch_len(), eng.as_ref().unwrap().verif_waiting_for_pong()),
       _ => panic!("unknown command {}", cmd),
     }
